@@ -72,13 +72,21 @@ func raceMain(args []string) int {
 			"CreateTable": func(i int) { o := mk(tmpT(i)); s.Exec(&o) },
 			"DeleteTable": func(i int) { o := bt.Op{Ev: "DeleteTable", T: tmpT(i)}; s.Exec(&o); o2 := mk(tmpT(i)); s.Exec(&o2) },
 			"ListTables":  func(i int) { o := bt.Op{Ev: "ListTables", Parent: P}; s.Exec(&o) },
-			"GetTable":    func(i int) { o := bt.Op{Ev: "GetTable", T: T}; s.Exec(&o); o2 := bt.Op{Ev: "GetTable", T: tmpT(i)}; s.Exec(&o2) },
+			"GetTable": func(i int) {
+				o := bt.Op{Ev: "GetTable", T: T}
+				s.Exec(&o)
+				o2 := bt.Op{Ev: "GetTable", T: tmpT(i)}
+				s.Exec(&o2)
+			},
 			"ModifyFamilies": func(i int) {
 				k := []string{"create", "drop"}[i/2%2]
 				o := bt.Op{Ev: "ModifyFamilies", T: T, Mods: []bt.Mod{{K: k, F: j.S("h"), Rule: bt.Rule{T: "maxver", N: 2}}}}
 				s.Exec(&o)
 			},
-			"DropRowRange": func(i int) { o := bt.Op{Ev: "DropRowRange", T: T, HasPrefix: true, Prefix: j.S(fmt.Sprintf("r%03d", i%150))}; s.Exec(&o) },
+			"DropRowRange": func(i int) {
+				o := bt.Op{Ev: "DropRowRange", T: T, HasPrefix: true, Prefix: j.S(fmt.Sprintf("r%03d", i%150))}
+				s.Exec(&o)
+			},
 			"GenerateToken": func(i int) {
 				ctx, cancel := context.WithTimeout(context.Background(), 5*time.Second)
 				defer cancel()
@@ -109,7 +117,12 @@ func raceMain(args []string) int {
 				o := bt.Op{Ev: "ReadModifyWrite", T: T, K: j.S(fmt.Sprintf("r%03d", i%150)), Now: 5000, Rules: []bt.RmwRule{{K: "incr", F: j.S("g"), Q: j.S("n"), Amt: j.B{0, 0, 0, 0, 0, 0, 0, 1}}}}
 				s.Exec(&o)
 			},
-			"ReadRows":      func(i int) { o := bt.Op{Ev: "ReadRows", T: T, Limit: 20}; s.Exec(&o); o2 := bt.Op{Ev: "ReadRows", T: tmpT(i)}; s.Exec(&o2) },
+			"ReadRows": func(i int) {
+				o := bt.Op{Ev: "ReadRows", T: T, Limit: 20}
+				s.Exec(&o)
+				o2 := bt.Op{Ev: "ReadRows", T: tmpT(i)}
+				s.Exec(&o2)
+			},
 			"SampleRowKeys": func(i int) { o := bt.Op{Ev: "SampleRowKeys", T: T}; s.Exec(&o) },
 			"GcPass":        func(i int) { o := bt.Op{Ev: "GcPass", T: T, Now: 9_000_000}; s.Exec(&o) },
 		}
@@ -140,15 +153,28 @@ func raceMain(args []string) int {
 		ex := func(op gcs.Op) { s.ExecHdr(&op, nil) }
 		h := map[string]func(i int){
 			"CreateBucket": func(i int) { ex(gcs.Op{Ev: "CreateBucket", B: j.S("tmpb")}) },
-			"DeleteBucket": func(i int) { ex(gcs.Op{Ev: "DeleteBucket", B: j.S("tmpb")}); ex(gcs.Op{Ev: "CreateBucket", B: j.S("tmpb")}) },
+			"DeleteBucket": func(i int) {
+				ex(gcs.Op{Ev: "DeleteBucket", B: j.S("tmpb")})
+				ex(gcs.Op{Ev: "CreateBucket", B: j.S("tmpb")})
+			},
 			"Upload": func(i int) {
 				ex(gcs.Op{Ev: "Upload", B: B, N: j.S("o1"), Proto: "multipart", Content: j.S(fmt.Sprint(i)), Decl: "none", Attrs: []gcs.KV{{K: "ct", V: j.S("text/plain")}}, Meta: []gcs.KVB{{K: j.S("k"), V: j.S("v")}}, Conds: nc})
 				ex(gcs.Op{Ev: "Upload", B: j.S("tmpb"), N: j.S("x"), Proto: "media", Content: j.S("x"), Decl: "none", Attrs: []gcs.KV{{K: "ct", V: j.S("text/plain")}}, Conds: nc})
 			},
-			"Patch":    func(i int) { ex(gcs.Op{Ev: "Patch", B: B, N: j.S("o1"), Meta: []gcs.KVB{{K: j.S("k"), V: j.S(fmt.Sprint(i))}, {K: j.S(fmt.Sprint("n", i%3)), V: j.S("1")}}, Conds: nc}) },
-			"Delete":   func(i int) { ex(gcs.Op{Ev: "Delete", B: B, N: j.S("o2"), Conds: nc}); ex(gcs.Op{Ev: "Upload", B: B, N: j.S("o2"), Proto: "media", Content: j.S("two"), Decl: "none", Attrs: []gcs.KV{{K: "ct", V: j.S("text/plain")}}, Conds: nc}) },
-			"Compose":  func(i int) { ex(gcs.Op{Ev: "Compose", B: B, N: j.S("o2"), Srcs: []gcs.Src{{N: j.S("o1"), Gm: gcs.Unset()}, {N: j.S("o2"), Gm: gcs.Unset()}}, Conds: nc}) },
-			"Copy":     func(i int) { ex(gcs.Op{Ev: "Copy", B: B, N: j.S("o1"), Db: B, Dn: j.S("o1copy")}); ex(gcs.Op{Ev: "Patch", B: B, N: j.S("o1copy"), Meta: []gcs.KVB{{K: j.S("c"), V: j.S("1")}}, Conds: nc}) },
+			"Patch": func(i int) {
+				ex(gcs.Op{Ev: "Patch", B: B, N: j.S("o1"), Meta: []gcs.KVB{{K: j.S("k"), V: j.S(fmt.Sprint(i))}, {K: j.S(fmt.Sprint("n", i%3)), V: j.S("1")}}, Conds: nc})
+			},
+			"Delete": func(i int) {
+				ex(gcs.Op{Ev: "Delete", B: B, N: j.S("o2"), Conds: nc})
+				ex(gcs.Op{Ev: "Upload", B: B, N: j.S("o2"), Proto: "media", Content: j.S("two"), Decl: "none", Attrs: []gcs.KV{{K: "ct", V: j.S("text/plain")}}, Conds: nc})
+			},
+			"Compose": func(i int) {
+				ex(gcs.Op{Ev: "Compose", B: B, N: j.S("o2"), Srcs: []gcs.Src{{N: j.S("o1"), Gm: gcs.Unset()}, {N: j.S("o2"), Gm: gcs.Unset()}}, Conds: nc})
+			},
+			"Copy": func(i int) {
+				ex(gcs.Op{Ev: "Copy", B: B, N: j.S("o1"), Db: B, Dn: j.S("o1copy")})
+				ex(gcs.Op{Ev: "Patch", B: B, N: j.S("o1copy"), Meta: []gcs.KVB{{K: j.S("c"), V: j.S("1")}}, Conds: nc})
+			},
 			"GetMeta":  func(i int) { ex(gcs.Op{Ev: "GetMeta", B: B, N: j.S("o1")}) },
 			"GetMedia": func(i int) { ex(gcs.Op{Ev: "GetMedia", B: B, N: j.S("o1"), Form: "api"}) },
 			"List":     func(i int) { ex(gcs.Op{Ev: "List", B: B, MaxResults: 2}); ex(gcs.Op{Ev: "List", B: j.S("tmpb")}) },
